@@ -30,7 +30,8 @@ pub struct Seed {
 /// a small accepted proof; `i` selects field/hasher/extension and the shape class
 pub fn make_seed(i: u64, rng: &mut Rng) -> Option<Seed> {
     let (fd, hs) = COMBOS[(i % COMBOS.len() as u64) as usize];
-    let ext = match (i / 12) % 3 {
+    // the extension degree rotates with the index so that even 24 seeds (quick tier) see all three degrees
+    let ext = match (i / 12 + i) % 3 {
         0 => FieldExtension::None,
         1 => FieldExtension::Quadratic,
         _ if stark::cubic_supported(fd) => FieldExtension::Cubic,
